@@ -375,6 +375,164 @@ theorem edge_source (h : InSpace properties m) (hg : mkIsoGraph properties m = .
 end Sources
 
 
+/-! ## §26 `sorted(roles)` is canonical: it depends only on the multiset of roles -/
+
+theorem ltChars_irrefl : ∀ a : List Char, ltChars a a = false := by
+  intro a
+  induction a with
+  | nil => rfl
+  | cons c a ih => simp [ltChars, ih]
+
+theorem ltChars_antisymm : ∀ a b : List Char, ltChars a b = false → ltChars b a = false → a = b := by
+  intro a
+  induction a with
+  | nil =>
+    intro b h1 h2
+    cases b with
+    | nil => rfl
+    | cons d b => simp [ltChars] at h1
+  | cons c a ih =>
+    intro b h1 h2
+    cases b with
+    | nil => simp [ltChars] at h2
+    | cons d b =>
+      simp only [ltChars] at h1 h2
+      by_cases hcd : c.toNat < d.toNat
+      · simp [hcd] at h1
+      · by_cases hdc : d.toNat < c.toNat
+        · simp [hdc] at h2
+        · simp only [hcd, hdc, if_false] at h1 h2
+          have hn : c.toNat = d.toNat := by omega
+          have hc : c = d := Char.toNat_inj.1 hn
+          rw [hc, ih b h1 h2]
+
+theorem ltChars_trans : ∀ a b c : List Char, ltChars a b = true → ltChars b c = true → ltChars a c = true := by
+  intro a
+  induction a with
+  | nil =>
+    intro b c h1 h2
+    cases b with
+    | nil => simp [ltChars] at h1
+    | cons d b =>
+      cases c with
+      | nil => simp [ltChars] at h2
+      | cons e c => rfl
+  | cons x a ih =>
+    intro b c h1 h2
+    cases b with
+    | nil => simp [ltChars] at h1
+    | cons y b =>
+      cases c with
+      | nil => simp [ltChars] at h2
+      | cons z c =>
+        simp only [ltChars] at h1 h2 ⊢
+        by_cases hxy : x.toNat < y.toNat
+        · by_cases hyz : y.toNat < z.toNat
+          · have : x.toNat < z.toNat := by omega
+            simp [this]
+          · by_cases hzy : z.toNat < y.toNat
+            · simp [hyz, hzy] at h2
+            · have : x.toNat < z.toNat := by omega
+              simp [this]
+        · by_cases hyx : y.toNat < x.toNat
+          · simp [hxy, hyx] at h1
+          · simp only [hxy, hyx, if_false] at h1
+            by_cases hyz : y.toNat < z.toNat
+            · have : x.toNat < z.toNat := by omega
+              simp [this]
+            · by_cases hzy : z.toNat < y.toNat
+              · simp [hyz, hzy] at h2
+              · simp only [hyz, hzy, if_false] at h2
+                have h1' : ¬ x.toNat < z.toNat := by omega
+                have h2' : ¬ z.toNat < x.toNat := by omega
+                simp only [h1', h2', if_false]
+                exact ih b c h1 h2
+
+theorem ltChars_asymm (a b : List Char) (h : ltChars a b = true) : ltChars b a = false := by
+  cases hba : ltChars b a with
+  | false => rfl
+  | true =>
+    have := ltChars_trans a b a h hba
+    rw [ltChars_irrefl] at this; cases this
+
+/-- `a ≤ b` -/
+def leChars (a b : List Char) : Prop := ltChars b a = false
+
+theorem leChars_trans {a b c : List Char} (h1 : leChars a b) (h2 : leChars b c) : leChars a c := by
+  unfold leChars at *
+  cases hca : ltChars c a with
+  | false => rfl
+  | true =>
+    exfalso
+    cases hab : ltChars a b with
+    | true =>
+      have := ltChars_trans c a b hca hab
+      rw [h2] at this; cases this
+    | false =>
+      have : a = b := ltChars_antisymm a b hab h1
+      subst this
+      rw [h2] at hca; cases hca
+
+def SortedL (l : List (List Char)) : Prop := l.Pairwise leChars
+
+theorem insertLabel_sorted (x : List Char) : ∀ (l : List (List Char)), SortedL l → SortedL (insertLabel x l) := by
+  intro l
+  induction l with
+  | nil => intro _; simp [insertLabel, SortedL]
+  | cons y ys ih =>
+    intro h
+    unfold SortedL at h
+    rw [List.pairwise_cons] at h
+    unfold insertLabel
+    by_cases hxy : ltChars x y = true
+    · simp only [hxy, if_true]
+      unfold SortedL
+      rw [List.pairwise_cons, List.pairwise_cons]
+      refine ⟨?_, h.1, h.2⟩
+      intro z hz
+      have hxy' : leChars x y := ltChars_asymm x y hxy
+      rcases List.mem_cons.1 hz with rfl | hz
+      · exact hxy'
+      · exact leChars_trans hxy' (h.1 z hz)
+    · have hxy' : ltChars x y = false := by simpa using hxy
+      simp only [hxy', Bool.false_eq_true, if_false]
+      unfold SortedL
+      rw [List.pairwise_cons]
+      refine ⟨?_, ih h.2⟩
+      intro z hz
+      rcases List.mem_cons.1 ((insertLabel_perm x ys).mem_iff.1 hz) with rfl | hz
+      · exact hxy'
+      · exact h.1 z hz
+
+theorem sortLabels_sorted (l : List (List Char)) : SortedL (sortLabels l) := by
+  induction l with
+  | nil => simp [sortLabels, SortedL]
+  | cons x xs ih => exact insertLabel_sorted x _ ih
+
+theorem sorted_perm_eq : ∀ (l1 l2 : List (List Char)), SortedL l1 → SortedL l2 → l1.Perm l2 → l1 = l2 := by
+  intro l1
+  induction l1 with
+  | nil => intro l2 _ _ hp; exact (List.Perm.nil_eq hp)
+  | cons a t1 ih =>
+    intro l2 h1 h2 hp
+    cases l2 with
+    | nil => exact absurd hp.length_eq (by simp)
+    | cons b t2 =>
+      unfold SortedL at h1 h2
+      rw [List.pairwise_cons] at h1 h2
+      have hab : leChars a b := by
+        rcases List.mem_cons.1 (hp.mem_iff.2 List.mem_cons_self) with e | hb
+        · rw [e]; exact ltChars_irrefl a
+        · exact h1.1 b hb
+      have hba : leChars b a := by
+        rcases List.mem_cons.1 (hp.mem_iff.1 List.mem_cons_self) with e | ha
+        · rw [e]; exact ltChars_irrefl b
+        · exact h2.1 a ha
+      have e : a = b := ltChars_antisymm a b hba hab
+      subst e
+      rw [ih t2 h1.2 h2.2 (List.Perm.cons_inv hp)]
+
+
 /-! ## §23 reading a node label back, and the MRS-level notion of isomorphism -/
 
 theorem split_first (D : Char → Prop) : ∀ (P1 P2 X1 X2 : List Char),
@@ -505,6 +663,362 @@ theorem sizes_of_mrsIso {properties : Bool} {m1 m2 : MRS} (h : MRSIso properties
     simp only [List.length_map] at a b
     omega
 
+
+
+/-! ## §28 the property text `{P=v|…}` and the multiset of (name, value) pairs determine each other -/
+
+theorem toUpper_of_not_lower (c : Char) (h : c.isLower = false) : c.toUpper = c := by
+  unfold Char.toUpper
+  simp only [Char.isLower, Bool.and_eq_false_iff, decide_eq_false_iff_not] at h
+  split
+  · rename_i hc
+    exfalso
+    rcases h with h | h
+    · exact h hc.1
+    · exact h hc.2
+  · rfl
+
+theorem upperC_of_noLower {s : List Char} (h : noLower s) : upperC s = s := by
+  unfold upperC
+  induction s with
+  | nil => rfl
+  | cons c s ih =>
+    rw [List.map_cons, toUpper_of_not_lower c (h c List.mem_cons_self),
+      ih (fun d hd => h d (List.mem_cons_of_mem _ hd))]
+
+theorem propString_eq (ps : Props) :
+    propString ps = ['{'] ++ joinWith ['|'] ((sortProps ps).map (fun q => renderKey (keyOf q))) ++ ['}'] := rfl
+
+theorem insertProp_perm (x : String × String) (l : Props) : (insertProp x l).Perm (x :: l) := by
+  induction l with
+  | nil => exact List.Perm.refl _
+  | cons y ys ih =>
+    unfold insertProp
+    split
+    · exact List.Perm.refl _
+    · exact ((List.Perm.cons y ih).trans (List.Perm.swap x y ys))
+
+theorem sortProps_perm (l : Props) : (sortProps l).Perm l := by
+  induction l with
+  | nil => exact List.Perm.refl _
+  | cons x xs ih =>
+    show (insertProp x (sortProps xs)).Perm (x :: xs)
+    exact (insertProp_perm x _).trans (List.Perm.cons x ih)
+
+def tailBar : List (List Char) → List Char
+  | [] => []
+  | w :: ws => '|' :: joinWith ['|'] (w :: ws)
+
+theorem joinBar_cons (x : List Char) (xs : List (List Char)) : joinWith ['|'] (x :: xs) = x ++ tailBar xs := by
+  cases xs <;> simp [joinWith, tailBar]
+
+theorem tailBar_shape (zs : List (List Char)) : tailBar zs = [] ∨ ∃ c r, tailBar zs = c :: r ∧ c = '|' := by
+  cases zs with
+  | nil => left; rfl
+  | cons w ws => right; exact ⟨'|', _, rfl, rfl⟩
+
+/-- `'|'.join` is injective on lists of non-empty items without `|` -/
+theorem joinBar_inj : ∀ (l1 l2 : List (List Char)),
+    (∀ x ∈ l1, x ≠ [] ∧ '|' ∉ x) → (∀ x ∈ l2, x ≠ [] ∧ '|' ∉ x) →
+    joinWith ['|'] l1 = joinWith ['|'] l2 → l1 = l2 := by
+  intro l1
+  induction l1 with
+  | nil =>
+    intro l2 _ h2 e
+    cases l2 with
+    | nil => rfl
+    | cons y ys =>
+      exfalso
+      have hy := (h2 y List.mem_cons_self).1
+      rw [joinBar_cons] at e
+      have : y = [] := by
+        have := congrArg List.length e
+        simp only [joinWith, List.length_nil, List.length_append] at this
+        exact List.eq_nil_of_length_eq_zero (by omega)
+      exact hy this
+  | cons x xs ih =>
+    intro l2 h1 h2 e
+    have hx := h1 x List.mem_cons_self
+    cases l2 with
+    | nil =>
+      exfalso
+      rw [joinBar_cons] at e
+      have : x = [] := by
+        have := congrArg List.length e
+        simp only [joinWith, List.length_nil, List.length_append] at this
+        exact List.eq_nil_of_length_eq_zero (by omega)
+      exact hx.1 this
+    | cons y ys =>
+      have hy := h2 y List.mem_cons_self
+      rw [joinBar_cons, joinBar_cons] at e
+      obtain ⟨hxy, hrest⟩ := split_first (fun c => c = '|') x y _ _
+        (fun c hc hd => by subst hd; exact hx.2 hc) (fun c hc hd => by subst hd; exact hy.2 hc)
+        (tailBar_shape xs) (tailBar_shape ys) e
+      subst hxy
+      cases xs with
+      | nil =>
+        cases ys with
+        | nil => rfl
+        | cons w ws => simp [tailBar] at hrest
+      | cons v vs =>
+        cases ys with
+        | nil => simp [tailBar] at hrest
+        | cons w ws =>
+          simp only [tailBar, List.cons.injEq, true_and] at hrest
+          rw [ih (w :: ws) (fun z hz => h1 z (List.mem_cons_of_mem _ hz))
+            (fun z hz => h2 z (List.mem_cons_of_mem _ hz)) hrest]
+
+theorem renderKey_inj {k1 k2 : List Char × List Char} (h1 : '=' ∉ k1.1) (h2 : '=' ∉ k2.1)
+    (e : renderKey k1 = renderKey k2) : k1 = k2 := by
+  unfold renderKey at e
+  obtain ⟨a, b⟩ := split_first (fun c => c = '=') k1.1 k2.1 _ _
+    (fun c hc hd => by subst hd; exact h1 hc) (fun c hc hd => by subst hd; exact h2 hc)
+    (Or.inr ⟨'=', k1.2, rfl, rfl⟩) (Or.inr ⟨'=', k2.2, rfl, rfl⟩) (by simpa [List.append_assoc] using e)
+  have hb : k1.2 = k2.2 := by simpa using b
+  exact Prod.ext a hb
+
+theorem keyOf_fst {q : String × String} (h : noLower q.1.toList) : (keyOf q).1 = q.1.toList :=
+  upperC_of_noLower h
+
+/-- the rendered items of a hygienic property list -/
+theorem rendered_ok {ps : Props} (h : PropsOK ps) :
+    ∀ x ∈ (sortProps ps).map (fun q => renderKey (keyOf q)), x ≠ [] ∧ '|' ∉ x := by
+  intro x hx
+  obtain ⟨q, hq, rfl⟩ := List.mem_map.1 hx
+  have hq' := h.1 q ((sortProps_perm ps).mem_iff.1 hq)
+  constructor
+  · simp [renderKey]
+  · simp only [renderKey, List.mem_append, List.mem_singleton, not_or]
+    refine ⟨⟨?_, by decide⟩, ?_⟩
+    · rw [keyOf_fst hq'.1]; exact hq'.2.2.1
+    · exact hq'.2.2.2
+
+
+/-- `property_priority(a) < property_priority(b)` written on the names -/
+theorem propKeyLt_eq (a b : String) : propKeyLt a b =
+    (decide (propIndex a < propIndex b) || (propIndex a == propIndex b && ltChars a.toList b.toList)) := rfl
+
+theorem propKeyLt_irrefl (a : String) : propKeyLt a a = false := by
+  simp [propKeyLt_eq, ltChars_irrefl]
+
+theorem propKeyLt_antisymm (a b : String) (h1 : propKeyLt a b = false) (h2 : propKeyLt b a = false) : a = b := by
+  simp only [propKeyLt_eq, Bool.or_eq_false_iff, decide_eq_false_iff_not, Bool.and_eq_false_iff, beq_eq_false_iff_ne,
+    ne_eq] at h1 h2
+  have hidx : propIndex a = propIndex b := by omega
+  rcases h1.2 with h | h
+  · exact absurd hidx h
+  · rcases h2.2 with h' | h'
+    · exact absurd hidx.symm h'
+    · exact String.ext (ltChars_antisymm _ _ h h')
+
+theorem propKeyLt_trans (a b c : String) (h1 : propKeyLt a b = true) (h2 : propKeyLt b c = true) :
+    propKeyLt a c = true := by
+  simp only [propKeyLt_eq, Bool.or_eq_true, decide_eq_true_eq, Bool.and_eq_true, beq_iff_eq] at h1 h2 ⊢
+  rcases h1 with h1 | ⟨e1, l1⟩
+  · rcases h2 with h2 | ⟨e2, _⟩
+    · left; omega
+    · left; omega
+  · rcases h2 with h2 | ⟨e2, l2⟩
+    · left; omega
+    · right; exact ⟨by omega, ltChars_trans _ _ _ l1 l2⟩
+
+theorem propKeyLt_asymm (a b : String) (h : propKeyLt a b = true) : propKeyLt b a = false := by
+  cases hba : propKeyLt b a with
+  | false => rfl
+  | true =>
+    have := propKeyLt_trans a b a h hba
+    rw [propKeyLt_irrefl] at this; cases this
+
+def leProp (x y : String × String) : Prop := propKeyLt y.1 x.1 = false
+
+theorem leProp_trans {x y z : String × String} (h1 : leProp x y) (h2 : leProp y z) : leProp x z := by
+  unfold leProp at *
+  cases hca : propKeyLt z.1 x.1 with
+  | false => rfl
+  | true =>
+    exfalso
+    cases hab : propKeyLt x.1 y.1 with
+    | true =>
+      have := propKeyLt_trans _ _ _ hca hab
+      rw [h2] at this; cases this
+    | false =>
+      have : x.1 = y.1 := propKeyLt_antisymm _ _ hab h1
+      rw [this] at hca
+      rw [h2] at hca; cases hca
+
+theorem insertProp_sorted (x : String × String) : ∀ (l : Props), l.Pairwise leProp → (insertProp x l).Pairwise leProp := by
+  intro l
+  induction l with
+  | nil => intro _; simp [insertProp]
+  | cons y ys ih =>
+    intro h
+    rw [List.pairwise_cons] at h
+    unfold insertProp
+    by_cases hxy : propKeyLt x.1 y.1 = true
+    · simp only [hxy, if_true]
+      rw [List.pairwise_cons, List.pairwise_cons]
+      refine ⟨?_, h.1, h.2⟩
+      intro z hz
+      have hxy' : leProp x y := propKeyLt_asymm _ _ hxy
+      rcases List.mem_cons.1 hz with rfl | hz
+      · exact hxy'
+      · exact leProp_trans hxy' (h.1 z hz)
+    · have hxy' : propKeyLt x.1 y.1 = false := by simpa using hxy
+      simp only [hxy', Bool.false_eq_true, if_false]
+      rw [List.pairwise_cons]
+      refine ⟨?_, ih h.2⟩
+      intro z hz
+      rcases List.mem_cons.1 ((insertProp_perm x ys).mem_iff.1 hz) with rfl | hz
+      · exact hxy'
+      · exact h.1 z hz
+
+theorem sortProps_sorted (l : Props) : (sortProps l).Pairwise leProp := by
+  induction l with
+  | nil => simp [sortProps]
+  | cons x xs ih => exact insertProp_sorted x _ ih
+
+/-- two sorted permutations of one another are equal, when `le` is antisymmetric on the members -/
+theorem sorted_perm_eq_on {α : Type} (le : α → α → Prop) (hrefl : ∀ a, le a a) :
+    ∀ (l1 l2 : List α), (∀ a ∈ l1, ∀ b ∈ l1, le a b → le b a → a = b) →
+      l1.Pairwise le → l2.Pairwise le → l1.Perm l2 → l1 = l2 := by
+  intro l1
+  induction l1 with
+  | nil => intro l2 _ _ _ hp; exact (List.Perm.nil_eq hp)
+  | cons a t1 ih =>
+    intro l2 hanti h1 h2 hp
+    cases l2 with
+    | nil => exact absurd hp.length_eq (by simp)
+    | cons b t2 =>
+      rw [List.pairwise_cons] at h1 h2
+      have hbm : b ∈ a :: t1 := hp.mem_iff.2 List.mem_cons_self
+      have hab : le a b := by
+        rcases List.mem_cons.1 hbm with e | hb
+        · rw [e]; exact hrefl a
+        · exact h1.1 b hb
+      have hba : le b a := by
+        rcases List.mem_cons.1 (hp.mem_iff.1 List.mem_cons_self) with e | ha
+        · rw [e]; exact hrefl b
+        · exact h2.1 a ha
+      have e : a = b := hanti a List.mem_cons_self b hbm hab hba
+      subst e
+      rw [ih t2 (fun x hx y hy => hanti x (List.mem_cons_of_mem _ hx) y (List.mem_cons_of_mem _ hy))
+        h1.2 h2.2 (List.Perm.cons_inv hp)]
+
+
+theorem map_eq_of_injOn {α β : Type} (f : α → β) : ∀ (l1 l2 : List α),
+    (∀ x ∈ l1, ∀ y ∈ l2, f x = f y → x = y) → l1.map f = l2.map f → l1 = l2 := by
+  intro l1
+  induction l1 with
+  | nil => intro l2 _ e; cases l2 with
+    | nil => rfl
+    | cons b t => simp at e
+  | cons a t ih =>
+    intro l2 h e
+    cases l2 with
+    | nil => simp at e
+    | cons b t2 =>
+      simp only [List.map_cons, List.cons.injEq] at e
+      rw [h a List.mem_cons_self b List.mem_cons_self e.1,
+        ih t2 (fun x hx y hy => h x (List.mem_cons_of_mem _ hx) y (List.mem_cons_of_mem _ hy)) e.2]
+
+theorem key_no_eq {ps : Props} (h : PropsOK ps) {q : String × String} (hq : q ∈ ps) : '=' ∉ (keyOf q).1 := by
+  rw [keyOf_fst (h.1 q hq).1]; exact (h.1 q hq).2.1
+
+theorem propString_ne_nil (ps : Props) : propString ps ≠ [] := by
+  rw [propString_eq]; simp
+
+/-- equal property texts ⇒ the same multiset of (name, value) pairs -/
+theorem keys_of_part {properties : Bool} {ps1 ps2 : Props} (h1 : PropsOK ps1) (h2 : PropsOK ps2)
+    (e : partOf properties ps1 = partOf properties ps2) : (keysOf properties ps1).Perm (keysOf properties ps2) := by
+  unfold partOf at e
+  unfold keysOf
+  cases properties with
+  | false => exact List.Perm.refl _
+  | true =>
+    simp only [Bool.true_and, if_true] at e ⊢
+    cases hp1 : ps1 with
+    | nil =>
+      cases hp2 : ps2 with
+      | nil => exact List.Perm.refl _
+      | cons b t => rw [hp1, hp2] at e; simp at e; exact absurd e (propString_ne_nil _)
+    | cons a t =>
+      cases hp2 : ps2 with
+      | nil => rw [hp1, hp2] at e; simp at e; exact absurd e (propString_ne_nil _)
+      | cons b t2 =>
+        rw [← hp1, ← hp2]
+        have hne1 : ps1.isEmpty = false := by rw [hp1]; rfl
+        have hne2 : ps2.isEmpty = false := by rw [hp2]; rfl
+        simp only [hne1, hne2, Bool.not_false, if_true] at e
+        rw [propString_eq, propString_eq] at e
+        have e' : joinWith ['|'] ((sortProps ps1).map (fun q => renderKey (keyOf q)))
+            = joinWith ['|'] ((sortProps ps2).map (fun q => renderKey (keyOf q))) := by
+          simpa using e
+        have e2 := joinBar_inj _ _ (rendered_ok h1) (rendered_ok h2) e'
+        have e3 : ((sortProps ps1).map keyOf).map renderKey = ((sortProps ps2).map keyOf).map renderKey := by
+          simpa [List.map_map, Function.comp_def] using e2
+        have e4 := map_eq_of_injOn renderKey _ _ (by
+          intro x hx y hy hxy
+          obtain ⟨q, hq, rfl⟩ := List.mem_map.1 hx
+          obtain ⟨q', hq', rfl⟩ := List.mem_map.1 hy
+          exact renderKey_inj (key_no_eq h1 ((sortProps_perm ps1).mem_iff.1 hq))
+            (key_no_eq h2 ((sortProps_perm ps2).mem_iff.1 hq')) hxy) e3
+        exact (((sortProps_perm ps1).map keyOf).symm.trans (e4 ▸ List.Perm.refl _)).trans
+          ((sortProps_perm ps2).map keyOf)
+
+def leKey (X Y : List Char × List Char) : Prop := propKeyLt (String.ofList Y.1) (String.ofList X.1) = false
+
+theorem sorted_keys {ps : Props} (h : PropsOK ps) : ((sortProps ps).map keyOf).Pairwise leKey := by
+  rw [List.pairwise_map]
+  have hs := sortProps_sorted ps
+  have hmem : ∀ q ∈ sortProps ps, q ∈ ps := fun q hq => (sortProps_perm ps).mem_iff.1 hq
+  refine List.Pairwise.imp_of_mem ?_ hs
+  intro x y hx hy hxy
+  unfold leKey
+  rw [keyOf_fst (h.1 x (hmem x hx)).1, keyOf_fst (h.1 y (hmem y hy)).1]
+  have : propKeyLt y.1 x.1 = false := hxy
+  simpa using this
+
+/-- the same multiset of (name, value) pairs ⇒ equal property texts (insertion sort is canonical) -/
+theorem part_of_keys {properties : Bool} {ps1 ps2 : Props} (h1 : PropsOK ps1) (h2 : PropsOK ps2)
+    (hp : (keysOf properties ps1).Perm (keysOf properties ps2)) : partOf properties ps1 = partOf properties ps2 := by
+  unfold keysOf at hp
+  unfold partOf
+  cases properties with
+  | false => rfl
+  | true =>
+    simp only [if_true] at hp
+    have hlen : ps1.length = ps2.length := by simpa using hp.length_eq
+    have hemp : ps1.isEmpty = ps2.isEmpty := by
+      cases ps1 <;> cases ps2 <;> simp_all
+    simp only [Bool.true_and, hemp]
+    by_cases he : (!ps2.isEmpty) = true
+    · simp only [he, if_true]
+      have hperm : ((sortProps ps1).map keyOf).Perm ((sortProps ps2).map keyOf) :=
+        (((sortProps_perm ps1).map keyOf).trans hp).trans ((sortProps_perm ps2).map keyOf).symm
+      have heq := sorted_perm_eq_on leKey (fun a => propKeyLt_irrefl _) _ _ (by
+        intro X hX Y hY hXY hYX
+        obtain ⟨x, hx, rfl⟩ := List.mem_map.1 hX
+        obtain ⟨y, hy, rfl⟩ := List.mem_map.1 hY
+        have hx' := (sortProps_perm ps1).mem_iff.1 hx
+        have hy' := (sortProps_perm ps1).mem_iff.1 hy
+        unfold leKey at hXY hYX
+        rw [keyOf_fst (h1.1 x hx').1, keyOf_fst (h1.1 y hy').1] at hXY hYX
+        have hn : x.1 = y.1 := by
+          have := propKeyLt_antisymm _ _ hYX hXY
+          simpa using this
+        have : x = y := map_eq_of_nodup_map (·.1) id ps1 h1.2 x hx' y hy' hn
+        rw [this]) (sorted_keys h1) (sorted_keys h2) hperm
+      rw [propString_eq, propString_eq]
+      have : (sortProps ps1).map (fun q => renderKey (keyOf q)) = (sortProps ps2).map (fun q => renderKey (keyOf q)) := by
+        have := congrArg (List.map renderKey) heq
+        simpa [List.map_map, Function.comp_def] using this
+      rw [this]
+    · simp only [he]; rfl
+
+theorem propPart_eq_partOf (properties : Bool) (m : MRS) (e : EP) :
+    propPart properties m e = partOf properties (ivProps m e) := by
+  unfold propPart partOf ivProps
+  cases e.iv <;> rfl
 
 /-! ## §24 a graph isomorphism, read forwards -/
 
@@ -834,7 +1348,10 @@ theorem mrsIso_of_graphIso {properties : Bool} {m1 m2 : MRS} {g1 g2 : IsoGraph} 
       have hpe : partnerOf μ m2 e1 = e2 := hπu e1 he1 e2 he2 hp
       simp only [hpe]
       obtain ⟨d1, d2, d3⟩ := label_decode (h1.preds e1 he1) (h2.preds e2 he2) (h1.cargs e1 he1) (h2.cargs e2 he2) hlab
-      refine ⟨d1, d2, d3, hσu _ (label_mem he1) _ (label_mem he2) hlbl, ?_⟩
+      have d3' : (propKey properties m1 e1).Perm (propKey properties m2 e2) :=
+        keys_of_part (h1.props e1 he1) (h2.props e2 he2)
+          (by rw [← propPart_eq_partOf, ← propPart_eq_partOf]; exact d3)
+      refine ⟨d1, d2, d3', hσu _ (label_mem he1) _ (label_mem he2) hlbl, ?_⟩
       -- arguments: both lists have distinct roles, so it is enough to compare members
       have hn1 : (e1.args.map (fun a => (a.1, σ a.2))).Nodup := by
         apply nodup_of_nodup_fst
@@ -922,169 +1439,11 @@ theorem mrsIso_of_graphIso {properties : Bool} {m1 m2 : MRS} {g1 g2 : IsoGraph} 
 /-- the Boolean form evaluated by the driver implies `InSpace` -/
 theorem inSpace_of_b {properties : Bool} {m : MRS} (h : inSpaceb properties m = true) : InSpace properties m := by
   simp only [inSpaceb, Bool.and_eq_true, decide_eq_true_eq] at h
-  obtain ⟨⟨⟨⟨⟨⟨⟨⟨h1, h2⟩, h3⟩, h4⟩, h5⟩, h6⟩, h7⟩, h8⟩, h9⟩ := h
-  refine ⟨namesOK_of_b h1, h2, h3, h4, h5, h6, h7, h8, ?_⟩
+  obtain ⟨⟨⟨⟨⟨⟨⟨⟨⟨h1, h2⟩, h3⟩, h4⟩, h5⟩, h6⟩, h7⟩, h8⟩, h8'⟩, h9⟩ := h
+  refine ⟨namesOK_of_b h1, h2, h3, h4, h5, h6, h7, h8, h8', ?_⟩
   intro g hg
   rw [hg] at h9
   exact h9
-
-
-/-! ## §26 `sorted(roles)` is canonical: it depends only on the multiset of roles -/
-
-theorem ltChars_irrefl : ∀ a : List Char, ltChars a a = false := by
-  intro a
-  induction a with
-  | nil => rfl
-  | cons c a ih => simp [ltChars, ih]
-
-theorem ltChars_antisymm : ∀ a b : List Char, ltChars a b = false → ltChars b a = false → a = b := by
-  intro a
-  induction a with
-  | nil =>
-    intro b h1 h2
-    cases b with
-    | nil => rfl
-    | cons d b => simp [ltChars] at h1
-  | cons c a ih =>
-    intro b h1 h2
-    cases b with
-    | nil => simp [ltChars] at h2
-    | cons d b =>
-      simp only [ltChars] at h1 h2
-      by_cases hcd : c.toNat < d.toNat
-      · simp [hcd] at h1
-      · by_cases hdc : d.toNat < c.toNat
-        · simp [hdc] at h2
-        · simp only [hcd, hdc, if_false] at h1 h2
-          have hn : c.toNat = d.toNat := by omega
-          have hc : c = d := Char.toNat_inj.1 hn
-          rw [hc, ih b h1 h2]
-
-theorem ltChars_trans : ∀ a b c : List Char, ltChars a b = true → ltChars b c = true → ltChars a c = true := by
-  intro a
-  induction a with
-  | nil =>
-    intro b c h1 h2
-    cases b with
-    | nil => simp [ltChars] at h1
-    | cons d b =>
-      cases c with
-      | nil => simp [ltChars] at h2
-      | cons e c => rfl
-  | cons x a ih =>
-    intro b c h1 h2
-    cases b with
-    | nil => simp [ltChars] at h1
-    | cons y b =>
-      cases c with
-      | nil => simp [ltChars] at h2
-      | cons z c =>
-        simp only [ltChars] at h1 h2 ⊢
-        by_cases hxy : x.toNat < y.toNat
-        · by_cases hyz : y.toNat < z.toNat
-          · have : x.toNat < z.toNat := by omega
-            simp [this]
-          · by_cases hzy : z.toNat < y.toNat
-            · simp [hyz, hzy] at h2
-            · have : x.toNat < z.toNat := by omega
-              simp [this]
-        · by_cases hyx : y.toNat < x.toNat
-          · simp [hxy, hyx] at h1
-          · simp only [hxy, hyx, if_false] at h1
-            by_cases hyz : y.toNat < z.toNat
-            · have : x.toNat < z.toNat := by omega
-              simp [this]
-            · by_cases hzy : z.toNat < y.toNat
-              · simp [hyz, hzy] at h2
-              · simp only [hyz, hzy, if_false] at h2
-                have h1' : ¬ x.toNat < z.toNat := by omega
-                have h2' : ¬ z.toNat < x.toNat := by omega
-                simp only [h1', h2', if_false]
-                exact ih b c h1 h2
-
-theorem ltChars_asymm (a b : List Char) (h : ltChars a b = true) : ltChars b a = false := by
-  cases hba : ltChars b a with
-  | false => rfl
-  | true =>
-    have := ltChars_trans a b a h hba
-    rw [ltChars_irrefl] at this; cases this
-
-/-- `a ≤ b` -/
-def leChars (a b : List Char) : Prop := ltChars b a = false
-
-theorem leChars_trans {a b c : List Char} (h1 : leChars a b) (h2 : leChars b c) : leChars a c := by
-  unfold leChars at *
-  cases hca : ltChars c a with
-  | false => rfl
-  | true =>
-    exfalso
-    cases hab : ltChars a b with
-    | true =>
-      have := ltChars_trans c a b hca hab
-      rw [h2] at this; cases this
-    | false =>
-      have : a = b := ltChars_antisymm a b hab h1
-      subst this
-      rw [h2] at hca; cases hca
-
-def SortedL (l : List (List Char)) : Prop := l.Pairwise leChars
-
-theorem insertLabel_sorted (x : List Char) : ∀ (l : List (List Char)), SortedL l → SortedL (insertLabel x l) := by
-  intro l
-  induction l with
-  | nil => intro _; simp [insertLabel, SortedL]
-  | cons y ys ih =>
-    intro h
-    unfold SortedL at h
-    rw [List.pairwise_cons] at h
-    unfold insertLabel
-    by_cases hxy : ltChars x y = true
-    · simp only [hxy, if_true]
-      unfold SortedL
-      rw [List.pairwise_cons, List.pairwise_cons]
-      refine ⟨?_, h.1, h.2⟩
-      intro z hz
-      have hxy' : leChars x y := ltChars_asymm x y hxy
-      rcases List.mem_cons.1 hz with rfl | hz
-      · exact hxy'
-      · exact leChars_trans hxy' (h.1 z hz)
-    · have hxy' : ltChars x y = false := by simpa using hxy
-      simp only [hxy', Bool.false_eq_true, if_false]
-      unfold SortedL
-      rw [List.pairwise_cons]
-      refine ⟨?_, ih h.2⟩
-      intro z hz
-      rcases List.mem_cons.1 ((insertLabel_perm x ys).mem_iff.1 hz) with rfl | hz
-      · exact hxy'
-      · exact h.1 z hz
-
-theorem sortLabels_sorted (l : List (List Char)) : SortedL (sortLabels l) := by
-  induction l with
-  | nil => simp [sortLabels, SortedL]
-  | cons x xs ih => exact insertLabel_sorted x _ ih
-
-theorem sorted_perm_eq : ∀ (l1 l2 : List (List Char)), SortedL l1 → SortedL l2 → l1.Perm l2 → l1 = l2 := by
-  intro l1
-  induction l1 with
-  | nil => intro l2 _ _ hp; exact (List.Perm.nil_eq hp)
-  | cons a t1 ih =>
-    intro l2 h1 h2 hp
-    cases l2 with
-    | nil => exact absurd hp.length_eq (by simp)
-    | cons b t2 =>
-      unfold SortedL at h1 h2
-      rw [List.pairwise_cons] at h1 h2
-      have hab : leChars a b := by
-        rcases List.mem_cons.1 (hp.mem_iff.2 List.mem_cons_self) with e | hb
-        · rw [e]; exact ltChars_irrefl a
-        · exact h1.1 b hb
-      have hba : leChars b a := by
-        rcases List.mem_cons.1 (hp.mem_iff.1 List.mem_cons_self) with e | ha
-        · rw [e]; exact ltChars_irrefl b
-        · exact h2.1 a ha
-      have e : a = b := ltChars_antisymm a b hba hab
-      subst e
-      rw [ih t2 h1.2 h2.2 (List.Perm.cons_inv hp)]
 
 
 theorem argDict_sorted : ∀ (args : List (Role × Var)) (d : List (Node × Label)),
@@ -1192,9 +1551,13 @@ theorem epEq_quant (h : EPEq properties σ m1 m2 e1 e2) : e2.isQuantifier = e1.i
   · rintro ⟨a, ha, hr⟩
     exact ⟨(a.1, σ a.2), h.args.mem_iff.1 (List.mem_map.2 ⟨a, ha, rfl⟩), hr⟩
 
-theorem epEq_nodeLabel (h : EPEq properties σ m1 m2 e1 e2) :
+theorem epEq_nodeLabel (h : EPEq properties σ m1 m2 e1 e2)
+    (hp1 : PropsOK (ivProps m1 e1)) (hp2 : PropsOK (ivProps m2 e2)) :
     epNodeLabel properties m1 e1 = epNodeLabel properties m2 e2 := by
-  rw [epNodeLabel_parts, epNodeLabel_parts, h.pred, h.props]
+  have hpp : propPart properties m1 e1 = propPart properties m2 e2 := by
+    rw [propPart_eq_partOf, propPart_eq_partOf]
+    exact part_of_keys hp1 hp2 h.props
+  rw [epNodeLabel_parts, epNodeLabel_parts, h.pred, hpp]
   unfold cargPart
   rw [h.carg]
 
@@ -1376,7 +1739,7 @@ theorem back_edge_fwd (c : BackCtx properties σ m1 m2 ps) {g1 g2 : IsoGraph}
     rw [node_label_of_rel c.h1 hg1 he1] at h
     rw [backNode_id c hp]
     simp only [Option.map_none]
-    rw [node_label_of_rel c.h2 hg2 (c.mem2 hp), ← epEq_nodeLabel (c.eq _ hp)]
+    rw [node_label_of_rel c.h2 hg2 (c.mem2 hp), ← epEq_nodeLabel (c.eq _ hp) (c.h1.props _ (c.mem1 hp)) (c.h2.props _ (c.mem2 hp))]
     exact h
   | some t' =>
     simp only [Option.map_some]
